@@ -201,10 +201,15 @@ TERMS = {
     "array_empty": ["array", []],
     "interval": ["interval", {"days": 2, "hours": 3}],
     "tz_time": ["vw", TZT],
+    "string_bs": ["vw", ["raw", "a\\b'c"]],
     "quoted_name": ["col", "T", "Na me"],
     "groupby_alias": ["col", "T", "g"],
 }
-POSITIONS = ["top_select", "top_where", "from_sub_select", "in_sub_where", "cte_select", "setop_right_select", "join_on", "scalar_sub_select", "insert_select"]
+POSITIONS = ["top_select", "top_where", "from_sub_select", "in_sub_where", "cte_select", "setop_right_select", "join_on", "scalar_sub_select", "insert_select",
+             "update_set", "update_set_raw", "insert_value_raw"]
+RAW_POSITIONS = ("update_set_raw", "insert_value_raw")  # the plain Python value handed to the builder: wrapped by the class's own ValueWrapper
+RAW_TERMS = ("value_int", "bool_plain", "tz_time", "string_bs")
+TOP_POSITIONS = ("top_select", "top_where", "join_on", "insert_select", "update_set", "update_set_raw", "insert_value_raw")
 
 
 def wrap(term):
@@ -259,6 +264,12 @@ def _matrix_program(cls, pos, term, inner_cls):
         steps = [["from_", [["src", "U"]]], ["select", [["col", "U", "a"], ["subq", sub(sel=m)]]]]
     elif pos == "insert_select":
         steps = [["into", [["src", "V"]]], ["from_", [["src", "T"]]], ["select", [m]]]
+    elif pos == "update_set":
+        steps = [["update", [["src", "T"]]], ["set", [a, m]], ["where", [["eq", ["col", "T", "id"], ["raw", 1]]]]]
+    elif pos == "update_set_raw":
+        steps = [["update", [["src", "T"]]], ["set", [a, term[1] if term[0] == "vw" else term]], ["where", [["eq", ["col", "T", "id"], ["raw", 1]]]]]
+    elif pos == "insert_value_raw":
+        steps = [["into", [["src", "T"]]], ["columns", [["py", "a"]]], ["insert", [term[1] if term[0] == "vw" else term]]]
     else:
         raise HarnessError(pos)
     return {"cls": cls, "sources": src, "steps": steps}
@@ -304,6 +315,10 @@ def expected_form(cls, term_name, par, sql_values):
         if par:
             return lambda ts: len(ts) == 1 and is_ph(ts[0]), "placeholder"
         return lambda ts: len(ts) == 1 and ts[0].kind == "str" and ts[0].value in ("10:11:12+02:00", "10:11:12"), "'10:11:12+02:00'"
+    if term_name == "string_bs":
+        if par:
+            return lambda ts: len(ts) == 1 and is_ph(ts[0]), "placeholder"
+        return lambda ts: len(ts) == 1 and ts[0].kind == "str" and ts[0].value == "a\\b'c", "one string literal that the dialect reads back as a\\b'c"
     if term_name == "quoted_name":
         return lambda ts: len(ts) >= 1 and ts[-1].kind == "qid" and ts[-1].value == "Na me" and q in ts[-1].flags and all(t.kind != "qid" or q in t.flags for t in ts), "%sNa me%s" % (q, q)
     raise HarnessError(term_name)
@@ -320,6 +335,23 @@ def marker_tokens(tokens):
                     depth -= 1
                     if depth == 0:
                         return tokens[i + 2:j]
+    return None
+
+
+def raw_tokens(tokens, pos):
+    """the tokens of the lone value: after SET <col> = up to WHERE, or inside VALUES ( )"""
+    if pos == "update_set_raw":
+        for i, t in enumerate(tokens):
+            if t.kind == "word" and t.value == "SET":
+                j = next((k for k in range(i, len(tokens)) if tokens[k].kind == "op" and tokens[k].text == "="), None)
+                if j is None:
+                    return None
+                end = next((k for k in range(j, len(tokens)) if tokens[k].kind == "word" and tokens[k].value == "WHERE"), len(tokens))
+                return tokens[j + 1:end]
+        return None
+    for i, t in enumerate(tokens):
+        if t.kind == "word" and t.value == "VALUES" and i + 1 < len(tokens) and tokens[i + 1].text == "(":
+            return tokens[i + 2:len(tokens) - 1] if tokens[-1].text == ")" else None
     return None
 
 
@@ -364,13 +396,18 @@ def check_cell(cls, pos, term_name, inner, par):
         if pos not in GROUPBY_POSITIONS:
             return None
         return check_groupby_cell(cls, pos, inner, par)
+    if pos in RAW_POSITIONS and term_name not in RAW_TERMS:
+        return None
     p = matrix_program(cls, pos, TERMS[term_name], inner)
     try:
         sql, vals = render(p, cls, par, force=False)
     except Exception as e:
         return ("raises:" + type(e).__name__, "%r" % (e,))
     toks = lex.lex(sql, cls)
-    mt = marker_tokens(toks)
+    if pos in RAW_POSITIONS:
+        mt = raw_tokens(toks, pos)
+    else:
+        mt = marker_tokens(toks)
     if mt is None:
         return ("marker_lost", sql)
     pred, desc = expected_form(cls, term_name, par, vals)
@@ -396,7 +433,7 @@ def cells():
         for pos in POSITIONS:
             for term_name in TERMS:
                 for inner in ("inherit", "generic"):
-                    if inner == "generic" and pos in ("top_select", "top_where", "join_on", "insert_select"):
+                    if inner == "generic" and pos in TOP_POSITIONS:
                         continue
                     for par in (False, True):
                         yield cls, pos, term_name, inner, par
@@ -412,14 +449,14 @@ def check_case(case):
 
 
 def cell_sig(cls, pos, term, inner, kind):
-    nested = "nested" if pos not in ("top_select", "top_where", "join_on", "insert_select") else "top"
+    nested = "nested" if pos not in TOP_POSITIONS else "top"
     return mksig("matrix", cls, term, kind, "generic_inner" if inner == "generic" else nested)
 
 
 def valid_case(case):
     try:
         if case.get("mode") == "cell":
-            return case["cls"] in CTXS and case["pos"] in POSITIONS and case["term"] in TERMS
+            return case["cls"] in CTXS and case["pos"] in POSITIONS and case["term"] in TERMS and case["inner"] in ("inherit", "generic") and case["par"] in (False, True)
         prog.build_program(dict(case["program"], cls="generic"), force_cls="generic")
         return True
     except (Exception, HarnessError):
